@@ -56,7 +56,12 @@ def run_once(workdir, spec, timeout=120):
     spec = dict(spec)
     spec['workdir'] = workdir
     os.makedirs(os.path.join(workdir, 'out'), exist_ok=True)
-    spec['args'] = list(spec['args']) + [a for a in BASE_ARGS]
+    base = [a for a in BASE_ARGS]
+    if spec.get('db_uri'):
+        # the same on-disk database named by an SQLAlchemy URL (GenericSQLURLTable instead of SQLiteURLTable)
+        i = base.index('--database')
+        base[i:i + 2] = ['--database-uri', 'sqlite:///{WORK}/db.sqlite']
+    spec['args'] = list(spec['args']) + base
     env = dict(os.environ)
     env['PYTHONPATH'] = '%s:%s' % (spec.get('repo') or common.REPO, common.VERIF)
     env['PYTHONHASHSEED'] = '0'
